@@ -29,6 +29,9 @@ StepRan(st, o, n) ==
   /\ \A r \in 1..n : (revs[r].status = "deployed") = (r = d)
   /\ Fails(st[n]) => revs[n].status = "failed"
 
+\* the recorded values of revisions 1..n as read back after step n
+ObsCfgs(o, n) == [r \in 1..n |-> o.steps[n].revs[r].cfg.m]
+
 \* the checks at step n of chain j (o: its observations), st = StepsOfJ(j)
 ChecksAt(st, o, n) ==
   LET s    == st[n]
@@ -44,10 +47,11 @@ ChecksAt(st, o, n) ==
     [n |-> "C13_Effective", v |-> EffectiveOk(PropRevs(st, n)[n], now[n].probe)],
     \* a rollback re-creates the target revision's values and rendering unchanged
     [n |-> "C13_Rollback",  v |-> s.op = "rollback" => (tgtOk /\ now[n].cfg = was[s.target].cfg /\ now[n].probe = was[s.target].probe)],
+    \* one overlay rule for every key: nulls laid over set keys are all kept or (L18) all dropped
+    [n |-> "C13_NullUniform", v |-> NullUniform(st, ObsCfgs(o, n), n) \/ ~NullUniform(st, ObsCfgs(o, n - 1), n - 1)],
     \* no step rewrites what an older revision recorded
     [n |-> "C13_Stored",    v |-> \A r \in 1..(n - 1) : now[r].cfg = was[r].cfg /\ now[r].probe = was[r].probe] >>
 
-ObsCfgs(o, n) == [r \in 1..n |-> o.steps[n].revs[r].cfg.m]
 
 Chunk == 200
 VARIABLE l
